@@ -108,6 +108,28 @@ impl BG {
                 let r = self.reg();
                 let k = self.rng.below(6) as i32;
                 v.push(assign(r.clone(), num(k)));
+                if self.rng.chance(1, 2) {
+                    // the same with no store in between: the loads feed comparisons
+                    let k1 = self.small();
+                    let k2 = self.small();
+                    let change = match self.rng.below(3) {
+                        0 => Stmt::Expr(Expr::IncDec { lv: r.clone(), post: true, inc: true }),
+                        1 => Stmt::Expr(Expr::IncDec { lv: r.clone(), post: false, inc: false }),
+                        _ => assign(r.clone(), num(k + 1)),
+                    };
+                    let op1 = *self.rng.pick(&[BinOp::Eq, BinOp::Ne, BinOp::Lt, BinOp::Ge]);
+                    let op2 = *self.rng.pick(&[BinOp::Eq, BinOp::Ne, BinOp::Lt, BinOp::Ge]);
+                    let inner = Stmt::If(bin(op2, Expr::Lv(idx(ARR, Expr::Lv(r.clone()))), num(k2)), Box::new(assign(LV::Var(C), num(1))), None);
+                    let seq = vec![change, inner];
+                    if self.rng.chance(1, 2) {
+                        v.push(Stmt::If(bin(op1, Expr::Lv(idx(ARR, Expr::Lv(r.clone()))), num(k1)), Box::new(Stmt::Block(seq)), None));
+                    } else {
+                        // straight line: load(arr[r]) has no store either
+                        v.push(Stmt::Load(Expr::Lv(idx(ARR, Expr::Lv(r.clone())))));
+                        v.extend(seq);
+                    }
+                    return v;
+                }
                 v.push(assign(LV::Var(A), Expr::Lv(idx(ARR, Expr::Lv(r.clone())))));
                 match self.rng.below(4) {
                     0 => v.push(Stmt::Expr(Expr::IncDec { lv: r.clone(), post: true, inc: true })),
